@@ -108,7 +108,7 @@ def main(argv=None):
         n_internal = len(monitor.INTERNAL_ERRORS)
         internal = monitor.INTERNAL_ERRORS[:3]
     else:
-        dumps, failures = core.run_shards(prop, tier, seed, nshards, timeout_s=budget * 2 + 120)
+        dumps, failures = core.run_shards(prop, tier, seed, nshards, timeout_s=budget * 6 + 300)
         ctx.nshards = 1
         for d in dumps:
             ctx.absorb(d)
